@@ -557,3 +557,251 @@ def edit_sentinel(check: Check, repo: Repo) -> None:
         check.ob(rule, arms_if[0], f"{name} of the edit application handles REMOVE", ok,
                  f"consumes `edits` {len(uses)}x and tests `is REMOVE` {len(tests)}x" if ok else
                  f"consumes `edits` {len(uses)}x but never tests an edit value against REMOVE: the sentinel is stored in the tree")
+
+
+def result_filter(check: Check, repo: Repo) -> None:
+    """A visitor result is used as an *edit* only if it is none of the special values."""
+    rule = "RESULT-FILTER"
+    check.rule(
+        rule,
+        "a visitor result is treated as an edit (returned by the ParallelVisitor closures, recorded "
+        "with edits.append in visit()) only where must-facts exclude None and the sentinels that mean "
+        "'no edit' at that point: BREAK/True and SKIP/False (documented: SKIP on leave is no action)",
+    )
+    from sa.cfg import CFG as _CFG
+
+    pv = repo.func("language.visitor", "ParallelVisitor.get_enter_leave_for_kind")
+    sites: list[tuple[ast.AST, ast.AST, str]] = []
+    for inner_name in ("enter", "leave"):
+        inner = next((n for n in ast.walk(pv) if isinstance(n, (ast.FunctionDef,)) and n.name == inner_name), None)
+        if inner is None:
+            raise AnalysisError(f"ParallelVisitor closure {inner_name} missing")
+        for r in walk_body(inner):
+            if isinstance(r, ast.Return) and isinstance(r.value, ast.Name) and r.value.id == "result":
+                sites.append((inner, r, f"ParallelVisitor.{inner_name}: return result"))
+    v = repo.func("language.visitor", "visit")
+    for c in walk_body(v):
+        if isinstance(c, ast.Call) and unparse(c.func) == "edits.append" and c.args and "result" in unparse(c.args[0]):
+            sites.append((v, c, "visit(): edits.append((key, result))"))
+    flows: dict[ast.AST, FactFlow] = {}
+    for fn, node, label in sites:
+        if fn not in flows:
+            flows[fn] = FactFlow(_CFG(fn))
+        facts = {(f.text, f.pol) for f in flows[fn].facts_at(node) if f.kind == "cond"}
+        need = [("result is None", False), ("result is SKIP", False), ("result is False", False),
+                ("result is BREAK", False), ("result is True", False)]
+        missing = []
+        for text, pol in need:
+            alt = (text.replace(" is ", " is not "), not pol)
+            if (text, pol) not in facts and alt not in facts:
+                missing.append(text)
+        check.ob(rule, node, label, not missing,
+                 "result excluded from {None, SKIP, False, BREAK, True} on every path" if not missing else
+                 f"no fact excludes: {missing} - such a result would be applied as an edit / stop sibling visitors")
+    check.floor(rule, 3, "edit-use sites of visitor results")
+
+
+def edit_offset(check: Check, repo: Repo) -> None:
+    rule = "EDIT-OFFSET"
+    check.rule(
+        rule,
+        "the array arm of the edit application removes items either with an index compensated by the "
+        "number of earlier removals (index derived from `key - counter`, counter incremented in the "
+        "removal branch) or while iterating the removals in reverse order; otherwise every removal "
+        "after the first hits a shifted position",
+    )
+    fn = repo.func("language.visitor", "visit")
+    edited = [n for n in walk_body(fn) if isinstance(n, ast.If) and unparse(n.test) == "is_edited"]
+    arms_if = [s for s in edited[0].body if isinstance(s, ast.If) and unparse(s.test) == "in_array"] if edited else []
+    if not arms_if:
+        raise AnalysisError("visit(): array arm of the edit application not found")
+    body = arms_if[0].body
+    removals = []
+    for s in body:
+        for n in ast.walk(s):
+            if isinstance(n, ast.Call) and isinstance(n.func, ast.Attribute) and n.func.attr == "pop" and n.args:
+                removals.append((n, n.args[0]))
+            if isinstance(n, ast.Delete):
+                for t in n.targets:
+                    if isinstance(t, ast.Subscript):
+                        removals.append((n, t.slice))
+    if not removals:
+        check.ob(rule, arms_if[0], "array arm removes items", False, "no pop/del found: REMOVE has no effect on lists")
+        return
+    for node, idx in removals:
+        loop = next((a for a in _anc(node) if isinstance(a, ast.For)), None)
+        ok, why = False, "removal outside a loop over the edits"
+        if loop is not None:
+            it = unparse(loop.iter)
+            if it.startswith("reversed(") or "reverse=True" in it:
+                ok, why = True, f"iterates {it}"
+            else:
+                # index = edit_key - counter, counter += 1 in the same branch as the removal
+                names = {x.id for x in ast.walk(idx) if isinstance(x, ast.Name)}
+                defs = {}
+                for s in ast.walk(loop):
+                    if isinstance(s, ast.Assign) and len(s.targets) == 1 and isinstance(s.targets[0], ast.Name):
+                        defs[s.targets[0].id] = s.value
+                expr = idx
+                if isinstance(idx, ast.Name) and idx.id in defs:
+                    expr = defs[idx.id]
+                counters = [x.right.id for x in ast.walk(expr) if isinstance(x, ast.BinOp) and isinstance(x.op, ast.Sub)
+                            and isinstance(x.right, ast.Name)]
+                branch = parent(node)
+                while branch is not None and not isinstance(branch, ast.If):
+                    branch = parent(branch)
+                incs = [s for s in (branch.body if isinstance(branch, ast.If) else []) if isinstance(s, ast.AugAssign)
+                        and isinstance(s.op, ast.Add) and isinstance(s.target, ast.Name) and s.target.id in counters
+                        and unparse(s.value) == "1"]
+                ok = bool(counters) and bool(incs)
+                why = (f"index {unparse(expr)} compensated by `{counters[0]}`, incremented on removal" if ok else
+                       f"index `{unparse(expr)}` is not compensated for earlier removals and the loop over `{it}` runs forward")
+        check.ob(rule, node, f"array removal {node_text(node, 50)}", ok, why)
+
+
+def _anc(n: ast.AST):
+    p = parent(n)
+    while p is not None:
+        yield p
+        p = parent(p)
+
+
+def parallel_returns(check: Check, repo: Repo) -> None:
+    rule = "PARALLEL-RETURNS"
+    check.rule(
+        rule,
+        "the ParallelVisitor closures hand a decision to the traversal only as None or an edit result; "
+        "a sentinel (BREAK/SKIP or raw twin) may be returned only under a test that every slot of "
+        "`skipping` *is BREAK* - a slot holding a skipped node is truthy too and must not count as broken",
+    )
+    from sa.cfg import CFG as _CFG
+
+    pv = repo.func("language.visitor", "ParallelVisitor.get_enter_leave_for_kind")
+    n = 0
+    for inner in [x for x in ast.walk(pv) if isinstance(x, ast.FunctionDef) and x.name in ("enter", "leave")]:
+        flow = None
+        for r in walk_body(inner):
+            if not isinstance(r, ast.Return):
+                continue
+            n += 1
+            v = r.value
+            txt = unparse(v) if v is not None else "None"
+            if txt in ("None", "result"):
+                check.ob(rule, r, f"ParallelVisitor.{inner.name}: return {txt}", True, "None or an edit result", nontrivial=False)
+                continue
+            ok = False
+            why = f"returns `{txt}` to the traversal"
+            if txt in ("BREAK", "True", "SKIP", "False"):
+                flow = flow or FactFlow(_CFG(inner))
+                for f in flow.facts_at(r):
+                    if f.kind == "cond" and f.pol and isinstance(f.expr, ast.Call) and call_name(f.expr) == "all" and f.expr.args:
+                        g = f.expr.args[0]
+                        if isinstance(g, ast.GeneratorExp) and unparse(g.generators[0].iter) == "skipping" and "is BREAK" in unparse(g.elt):
+                            ok, why = True, f"guarded by {f.text}"
+                if not ok:
+                    why += " without a test that every slot of `skipping` is BREAK"
+            check.ob(rule, r, f"ParallelVisitor.{inner.name}: return {txt}", ok, why)
+    check.floor(rule, 3, "returns of the ParallelVisitor closures")
+
+
+def printer_per_return(check: Check, repo: Repo, model: AstModel) -> None:
+    """Stronger form of PRINTER-COVERAGE: every *return path* depends on every field."""
+    rule = "PRINTER-PATHS"
+    check.rule(
+        rule,
+        "in every leave_<kind> method of PrintAstVisitor each return statement depends - through its "
+        "expression or through the tests that select it - on every field of the kind; a return path "
+        "that ignores a field prints two different nodes identically",
+    )
+    cls = repo.cls("language.printer", "PrintAstVisitor")
+    methods = {s.name: s for s in cls.body if isinstance(s, (ast.FunctionDef, ast.AsyncFunctionDef))}
+    n_multi = 0
+    for kind, classes in sorted(model.kinds().items()):
+        m = methods.get(f"leave_{kind}")
+        if m is None:
+            continue
+        fields: set[str] = set()
+        for c in classes:
+            fields |= {f.name for f in c.fields if f.name != "loc"}
+        params = [a.arg for a in m.args.posonlyargs + m.args.args]
+        is_static = any(unparse(d) == "staticmethod" for d in m.decorator_list)
+        pname = params[0] if is_static else (params[1] if len(params) > 1 else None)
+        if pname is None:
+            continue
+        rets = [r for r in walk_body(m) if isinstance(r, ast.Return) and r.value is not None]
+        if len(rets) > 1:
+            n_multi += 1
+        deps = _local_deps(m, pname)
+        for r in rets:
+            used = _expr_fields(r.value, pname, deps)
+            # control dependence: enclosing ifs and earlier ifs that contain a return
+            for i in walk_body(m):
+                if isinstance(i, ast.If):
+                    encloses = any(x is r for x in ast.walk(i))
+                    earlier_exit = i.lineno < r.lineno and any(isinstance(x, ast.Return) for x in ast.walk(i))
+                    if encloses or earlier_exit:
+                        used |= _expr_fields(i.test, pname, deps)
+            missing = fields - used
+            check.ob(rule, r, f"leave_{kind}: return at +{r.lineno - m.lineno}", not missing,
+                     "depends on all fields" if not missing else f"this return path does not depend on field(s) {sorted(missing)}",
+                     nontrivial=len(rets) > 1)
+    check.floor(rule, 45, "return statements of leave_<kind> methods")
+
+
+def _local_deps(fn: ast.AST, pname: str) -> dict[str, set[str]]:
+    deps: dict[str, set[str]] = {}
+    changed = True
+    while changed:
+        changed = False
+        for n in walk_body(fn):
+            if isinstance(n, ast.Assign):
+                fs = _expr_fields(n.value, pname, deps)
+                for t in n.targets:
+                    if isinstance(t, ast.Name) and not fs <= deps.get(t.id, set()):
+                        deps.setdefault(t.id, set()).update(fs)
+                        changed = True
+    return deps
+
+
+def _expr_fields(e: ast.AST, pname: str, deps: dict[str, set[str]]) -> set[str]:
+    out: set[str] = set()
+    for n in ast.walk(e):
+        if isinstance(n, ast.Attribute) and isinstance(n.value, ast.Name) and n.value.id == pname:
+            out.add(n.attr)
+        elif isinstance(n, ast.Name) and n.id in deps:
+            out |= deps[n.id]
+    return out
+
+
+def ws_agree(check: Check, repo: Repo, modules: list[str]) -> None:
+    rule = "WS-AGREE"
+    check.rule(
+        rule,
+        "GraphQL white space is exactly TAB and SPACE: in the lexer, block-string helpers, printer and "
+        "strip_ignored_characters no argument-less str.strip/lstrip/rstrip/split or str.isspace is "
+        "applied (they also take NBSP, U+2003, U+0085, U+001F ... as blank), and every explicit blank "
+        "set compared against a character is a subset of ' \\t'",
+    )
+    n = 0
+    for mn in modules:
+        mod = repo.mod(mn)
+        for c in ast.walk(mod.tree):
+            if isinstance(c, ast.Call) and isinstance(c.func, ast.Attribute):
+                if c.func.attr in ("strip", "lstrip", "rstrip", "split") and not c.args and not c.keywords:
+                    check.ob(rule, c, f"{node_text(c, 60)} in {qualname_of(c)}", False,
+                             f"str.{c.func.attr}() without an explicit character set strips Unicode white space, not just TAB/SPACE")
+                    n += 1
+                elif c.func.attr == "isspace":
+                    check.ob(rule, c, f"{node_text(c, 60)} in {qualname_of(c)}", False, "str.isspace() accepts Unicode white space")
+                    n += 1
+    # explicit blank sets in block_string helpers
+    for fn_name in ("leading_white_space", "print_block_string", "is_printable_as_block_string"):
+        fn = repo.func("language.block_string", fn_name)
+        sets = set()
+        for c in walk_body(fn):
+            if isinstance(c, ast.Compare) and len(c.ops) == 1 and isinstance(c.ops[0], (ast.In, ast.NotIn)):
+                r = c.comparators[0]
+                if isinstance(r, ast.Constant) and isinstance(r.value, str) and (set(r.value) & set(" \t")):
+                    sets.add(r.value)
+        ok = bool(sets) and all(set(s) == {" ", "\t"} for s in sets)
+        check.ob(rule, fn, f"blank set used by {fn_name}", ok, f"sets: {sorted(sets)!r}" if sets else "no explicit ' \\t' membership test: blanks are decided some other way")
